@@ -230,7 +230,14 @@ func runC03(c *Ctx, r *Rec) {
 	checkResetCompleteness(c, r, "D1-reset-complete", cat)
 	checkReadersWriteNothing(c, r, "D1-readers-write-nothing", cat)
 	checkTypeLockPairing(c, r, "D1-lock-released", cat)
-	checkNoDynamicEquality(c, r, "D2-no-dynamic-equality", fileFuncs(c, "collection", cat))
+	{
+		// the catalog's file and the file of its associations
+		fds := fileFuncs(c, "collection", cat)
+		if an, err := c.impl("collection", "AssociationLike"); err == nil && an != nil {
+			fds = append(fds, fileFuncs(c, "collection", an)...)
+		}
+		checkNoDynamicEquality(c, r, "D2-no-dynamic-equality", fds)
+	}
 	checkNoReadBackOfRangedMap(c, r, "D1-values-from-the-ranged-pairs", fileFuncs(c, "collection", cat))
 	checkUnsignedSizeMinus(c, r, "D1-unsigned-size-minus", fileFuncs(c, "collection", cat))
 	for _, name := range sortedKeys(ms) {
